@@ -168,7 +168,7 @@ class RefV(V):
 # ----------------------------------------------------------------------------- state
 
 class Frame:
-    __slots__ = ("fn", "locals", "bb", "dest", "ret_bb", "visits", "on_return")
+    __slots__ = ("fn", "locals", "bb", "dest", "ret_bb", "visits", "on_return", "stop")
 
     def __init__(self, fn):
         self.fn = fn
@@ -178,6 +178,7 @@ class Frame:
         self.ret_bb = None
         self.visits = {}
         self.on_return = None
+        self.stop = False
 
 
 class Event:
@@ -211,7 +212,7 @@ class State:
         s.ghost = {k: (_cp(v, memo) if isinstance(v, (V, Cell, list, dict, tuple)) else v) for k, v in self.ghost.items()}
         for f in self.frames:
             g = Frame(f.fn)
-            g.bb, g.ret_bb, g.visits, g.on_return = f.bb, f.ret_bb, dict(f.visits), f.on_return
+            g.bb, g.ret_bb, g.visits, g.on_return, g.stop = f.bb, f.ret_bb, dict(f.visits), f.on_return, f.stop
             g.locals = {k: _cp(c, memo) for k, c in f.locals.items()}
             g.dest = (_cp(f.dest[0], memo), f.dest[1]) if f.dest else None
             s.frames.append(g)
@@ -516,6 +517,9 @@ class Engine:
         m = re.match(r"^(\w+)::MAX$", t)
         if m and m.group(1) in INT_TYPES:
             return IntV(int_range(m.group(1))[1], m.group(1))
+        m = re.match(r"^core::num::<impl (\w+)>::(MAX|MIN)$", t)
+        if m and m.group(1) in INT_TYPES:
+            return IntV(int_range(m.group(1))[1 if m.group(2) == "MAX" else 0], m.group(1))
         m = re.match(r"^(\w+)::MIN$", t)
         if m and m.group(1) in INT_TYPES:
             return IntV(int_range(m.group(1))[0], m.group(1))
@@ -777,6 +781,21 @@ class Engine:
         fr.dest, fr.ret_bb, fr.on_return = dest, ret_bb, on_return
         st.frames.append(fr)
 
+    def call_sync(self, st, fn, args):
+        """run MIR function `fn` to completion from inside a summary: -> [(state, return value)]
+        (states that panic/abort inside are returned with ret None and their status set)"""
+        self.push_call(st, fn, args, None, None)
+        st.frames[-1].stop = True
+        outs = []
+        for s2 in self.explore([st]):
+            if s2.status == "subreturn":
+                s2.status = "running"
+                r, s2.ret = s2.ret, None
+                outs.append((s2, r))
+            else:
+                outs.append((s2, None))
+        return outs
+
     def run(self, fn_name, args, st=None, setup=None):
         """explore all paths of fn_name from `args`; returns the list of finished states"""
         fn = self.find_fn(fn_name)
@@ -860,6 +879,9 @@ class Engine:
             st.frames.pop()
             if fr.on_return:
                 fr.on_return(self, st, v)
+            if fr.stop:
+                st.status, st.ret = "subreturn", v
+                return [st]
             if not st.frames:
                 st.status, st.ret = "return", v
                 return [st]
@@ -984,6 +1006,29 @@ class Engine:
         if isinstance(outs, tuple) and outs and outs[0] == "inline":
             self.push_call(st, outs[1], outs[2], (dcell, dpath), ret_bb)
             return None
+        if isinstance(outs, tuple) and outs and outs[0] == "states":
+            # the summary already forked/advanced the state itself: [(state, ret, conds)]
+            res = []
+            for s2, r2, conds in outs[1]:
+                if s2.status != "running":
+                    res.append(s2)
+                    continue
+                if conds and not self.feasible(s2, conds):
+                    continue
+                s2.pc.extend(conds)
+                f2 = s2.frames[-1]
+                if ret_bb is None:
+                    s2.status, s2.msg = "diverged", callee
+                    res.append(s2)
+                    continue
+                c2, p2 = self.resolve(s2, f2, dest)
+                self.write(s2, c2, p2, r2 if r2 is not None else UnitV())
+                f2.bb = ret_bb
+                res.append(s2)
+            if not res:
+                st.status, st.msg = "infeasible", "no feasible outcome of %s" % callee
+                return [st]
+            return res
         res = []
         feas = []
         for o in outs:
